@@ -163,7 +163,7 @@ contract TargetsManager.UpdateTargets
   modifies TargetsManager.targets at {t}, target.ScrapeStatus.TargetState, target.ScrapeStatus.ScrapeTimes, target.ScrapeStatus.* at {},
            tkestack.io/kvass/pkg/scrape.StatisticsSeriesResult.* at {}, mapof(tkestack.io/kvass/pkg/scrape.StatisticsSeriesResult.MetricsTotal) at {}, mapof(TargetsInfo.Status) at {},
            net/url.URL.* at {}, gWJob, gWIdx, gFileContent, gFileComplete, gLastMarshal
-  ensures[C09] @acknowledged_means_persisted err == nil ==> (pathjoin(2, t.storeDir, storeFileName) in gFileComplete && gFileContent[pathjoin(2, t.storeDir, storeFileName)] == gLastMarshal)
+  ensures[C09,C10] @acknowledged_means_persisted err == nil ==> (pathjoin(2, t.storeDir, storeFileName) in gFileComplete && gFileContent[pathjoin(2, t.storeDir, storeFileName)] == gLastMarshal)
 
 contract NewTargetsManager
   ensures[C10] @constructor_state result != nil && statusEntriesNonNil(result) && injectiveStatus(result.targets.Status) && len(result.targets.Status) == 0 && len(result.targets.Targets) == 0 && assignedHaveStatus(result)
